@@ -71,9 +71,28 @@ func (x *world) add() {
 	x.objs = append(x.objs, o)
 }
 
+// target resolves an operation on a removed object: identifiers are unique
+// among LIVE objects only, so a later object may have been given the
+// identifier of a removed one (random identifiers: an explored choice); a
+// message carrying that identifier then legitimately concerns the new object.
+func (x *world) target(o *obj) *obj {
+	if !o.removed {
+		return o
+	}
+	for _, other := range x.objs {
+		if !other.removed && other.id == o.id {
+			vrt.Flag("identifier-of-a-removed-object-reused")
+			return other
+		}
+	}
+	return o
+}
+
 func (x *world) call(o *obj, arg int32) {
+	sender := o
+	o = x.target(o)
 	before := o.impl.Total()
-	v, err := o.proxy.Echo(arg)
+	v, err := sender.proxy.Echo(arg)
 	switch {
 	case o.removed && err == nil:
 		vrt.Failf("removed-object-answers", "echo on a removed object succeeded (returned %d) after [%s]", v, x.log)
@@ -87,6 +106,13 @@ func (x *world) call(o *obj, arg int32) {
 }
 
 func (x *world) subscribe(o *obj) {
+	sender := o
+	o = x.target(o)
+	if sender != o {
+		// the stale proxy of the removed object keeps its own local
+		// subscription count: not judged
+		return
+	}
 	if o.subFailed || (o.removed && len(o.subs) > 0) {
 		// the proxy holds a local subscription count from an earlier
 		// attempt: no message would be sent to the removed object
@@ -115,6 +141,7 @@ func (x *world) subscribe(o *obj) {
 }
 
 func (x *world) remove(o *obj) {
+	o = x.target(o)
 	err := x.w.Service.Remove(o.id)
 	if o.removed && err == nil {
 		vrt.Failf("double-remove-accepted", "removing an already removed object succeeded after [%s]", x.log)
@@ -128,7 +155,9 @@ func (x *world) remove(o *obj) {
 }
 
 func (x *world) terminate(o *obj) {
-	err := o.proxy.Terminate(o.id)
+	sender := o
+	o = x.target(o)
+	err := sender.proxy.Terminate(o.id)
 	if !o.removed && err != nil {
 		vrt.Failf("terminate-failed", "terminate() of a live object failed after [%s]: %v", x.log, err)
 	}
